@@ -1,0 +1,29 @@
+//go:build verif
+// +build verif
+
+package par2
+
+// Verification hooks (build tag verif): exported wrappers around the
+// package-internal entry points that take the filesystem interface.
+
+// VerifFileIO is the exported form of fileIO.
+type VerifFileIO interface {
+	ReadFile(path string) ([]byte, error)
+	FindWithPrefixAndSuffix(prefix, suffix string) ([]string, error)
+	WriteFile(path string, data []byte) error
+}
+
+// VerifCreate is create with a caller-supplied filesystem.
+func VerifCreate(fs VerifFileIO, parPath string, filePaths []string, options CreateOptions) error {
+	return create(fs, parPath, filePaths, options)
+}
+
+// VerifVerify is verify with a caller-supplied filesystem.
+func VerifVerify(fs VerifFileIO, parPath string, options VerifyOptions) (VerifyResult, error) {
+	return verify(fs, parPath, options)
+}
+
+// VerifRepair is repair with a caller-supplied filesystem.
+func VerifRepair(fs VerifFileIO, parPath string, options RepairOptions) (RepairResult, error) {
+	return repair(fs, parPath, options)
+}
